@@ -8,7 +8,8 @@ from vf.gen import pick_weighted
 
 ID = "C49"
 THEOREMS = ["C49_dowild_total", "C49_dowild_sound_complete", "C49_dowild_codes", "C49_dowild_eq_git",
-            "C49_last_match_wins", "C49_decision_unique", "C49_excluded_parent", "C49_eq_git_refuted"]
+            "C49_last_match_wins", "C49_decision_unique", "C49_excluded_parent", "C49_pattern_eq_git_refuted",
+            "C49_pattern_eq_git_partial"]
 MODEL_FILES = ["Gitignore.v"]
 MODELLED = ("plumbing/format/gitignore: pattern.go ParsePattern, pattern.Match, simpleNameMatch, globMatch, wildmatch, dowild "
             "(all flags, abort codes, bracket loop, matchPOSIXClass), matcher.go matcher.Match, scope.go NewScope/Descend/Match/"
@@ -33,7 +34,8 @@ RULE = ("case = a small directory tree, ignore files at the root / in sub-direct
         "triples for ParsePattern/Match; non-trivial = some ignore file has a pattern line / the pattern has a glob-special byte; distinct by content")
 LEVEL_NOTE = ("trusted: Coq 8.16.1 kernel; the correspondence harness; S is a transcription of git 2.39.5 validated against the binary on every run. "
               "Theorems: dowild total; dowild (flags 0) sound and complete for a declarative glob semantics on the fragment literal/?/*/**/escapes/"
-              "simple bracket sets, and equal to git's dowild there; last-match-wins; excluded parent; go-git = git refuted with witnesses")
+              "simple bracket sets, and equal to git's dowild there; last-match-wins; excluded parent; go-git = git refuted with witnesses "
+              "and proved for ignore files made of plain (non-negated, slash-free) name patterns at every level")
 
 # ---------------------------------------------------------------- generators
 
